@@ -1,7 +1,8 @@
 """Configuration of the check for C09 (loaded by checklib/props.py; COMMON_TRUSTED / MODEL_TRUSTED are in scope)."""
 
 PROP = {'modules': ['AmVerif.Props.C09', 'AmVerif.Lemmas.Fault'],
- 'engines': [{'name': 'fault', 'quick': 120, 'thorough': 3000}],
+ 'engines': [{'name': 'fault', 'quick': 120, 'thorough': 3000},
+             {'name': 'hr', 'tag': 'hr-recovery', 'first': 7, 'quick': 1, 'thorough': 200, 'shrink': False, 'classes': ['stale-after-hot-reload', 'sync-timeout']}],
  'rule': 'one case = one scenario: a source with a script DAG, setup loads and ONE probed operation; the scenario is first run without fault to count the '
          'source reads and loader checkpoints of the probed operation, then for EVERY read index (NotFound, PermissionDenied, InvalidData, Interrupted, '
          'Other) and EVERY loader checkpoint (error, panic) the world is rebuilt from scratch (`reset`), the setup replayed, the single fault injected, '
